@@ -249,7 +249,24 @@ func fmtClass(orig, repl string) string {
 var deferSpecs = []ruleSpec{
 	{checker: "deferUnlambda", kind: "stmts",
 		gen: func(p func(...string) string) string {
-			switch p("var", "var", "pkgfn", "late") {
+			// callee forms: a declared function, a package-qualified function, a func-typed variable, a method of
+			// a pointer variable, a func-typed field reached through a pointer variable — each with and without
+			// a re-assignment of the variable between the defer statement and the function's end
+			re := func(stmt string) string {
+				if p("y", "y", "n") == "y" {
+					return "; " + stmt
+				}
+				return ""
+			}
+			switch p("var", "var", "pkgfn", "late", "ptrmeth", "ptrmeth2", "ptrfield", "qual") {
+			case "ptrmeth":
+				return "func() { wp := w; defer func() { wp.flush() }()" + re("wp = &wr{}") + " }()"
+			case "ptrmeth2":
+				return "func() { wp := w; defer func() { wp.refill() }()" + re("wp = &wr{avail: 3}") + " }()"
+			case "ptrfield":
+				return "func() { ob := &obj{f: hi}; defer func() { ob.f(1) }()" + re("ob = &obj{f: hj}") + " }()"
+			case "qual":
+				return "func() { defer func() { strings.ToUpper(\"a\") }(); c = 2 }()"
 			case "pkgfn":
 				return "func() { defer func() { setG() }(); gxs = nil }(); c = len(gxs)"
 			case "late":
@@ -268,6 +285,9 @@ var deferSpecs = []ruleSpec{
 		class: func(orig, _ string) string {
 			if strings.Contains(orig, "cl = func()") {
 				return "func-variable-evaluated-at-defer"
+			}
+			if strings.Contains(orig, "wp.") || strings.Contains(orig, "ob.f(") {
+				return "receiver-variable-evaluated-at-defer"
 			}
 			return "unclassified"
 		}},
@@ -494,7 +514,10 @@ var ruleSpecs = append([]ruleSpec{
 		}},
 	{checker: "unslice", kind: "expr",
 		gen: func(p func(...string) string) string {
-			return p("s[:]", "xs[:]", "bs[:]", "fs()[:]", "fxs()[:]", "(s + t)[:]", "len(xs[:])", "ms[:]", "mi[:]", "len(ma[:])", "len(pa[:])", "w.buf[:]", "mm[1][:]")
+			// operands of every sliceable kind; the value itself is observed (a slice of an array or of a pointer
+			// to an array is not the operand)
+			return p("s[:]", "xs[:]", "bs[:]", "fs()[:]", "fxs()[:]", "(s + t)[:]", "len(xs[:])", "ms[:]", "mi[:]", "len(ma[:])", "len(pa[:])", "w.buf[:]", "mm[1][:]",
+				"pa[:]", "ma[:]", "(&ma)[:]", "append(pa[:], 4)", "cap(ma[:]) + a")
 		},
 		rewrite: fromQuickFix, class: classPurity},
 	{checker: "assignOp", kind: "stmts", weight: 5,
@@ -775,6 +798,14 @@ func runRules(meta *common.Meta, tier string, seed int64, outDir string) {
 	}
 	meta.Evaluations += evals
 	meta.Distribution["rule_pair_evaluations"] = evals
+	// suggestions the compiler rejects cannot be executed (their validity is C09's subject): listed, not judged here
+	var notCompilable []string
+	for _, c := range dcs {
+		if c.Uncompilable {
+			notCompilable = append(notCompilable, c.Tag.(tag).p.checker+": `"+c.Orig+"` => `"+c.New+"`")
+		}
+	}
+	meta.Distribution["rule_pairs_not_compilable"] = notCompilable
 	sort.SliceStable(mm, func(i, j int) bool { return len(mm[i].Case.Orig) < len(mm[j].Case.Orig) })
 	for _, m := range mm {
 		t := m.Case.Tag.(tag)
